@@ -96,6 +96,16 @@ def int_eval(t, env, depth=0):
         if pn is not None and isinstance(i, int) and ('shape', pn, i) in env:
             return env[('shape', pn, i)]
         return UNKNOWN
+    if op == 'sub' and isinstance(t.args[1], T) and t.args[1].op == 'slice':
+        # edges[:-1] / edges[1:] of a folded sequence
+        v = int_eval(t.args[0], env, depth + 1)
+        b = [int_eval(x, env, depth + 1) if isinstance(x, T) else UNKNOWN for x in t.args[1].args]
+        if isinstance(v, tuple) and all(x is None or (isinstance(x, int) and not isinstance(x, bool)) for x in b):
+            try:
+                return v[slice(*b)]
+            except (ValueError, TypeError):
+                return UNKNOWN
+        return UNKNOWN
     if op == 'sub':
         v, i = int_eval(t.args[0], env, depth + 1), int_eval(t.args[1], env, depth + 1)
         try:
@@ -175,6 +185,21 @@ def int_eval(t, env, depth=0):
         return UNKNOWN
     if op == 'call':
         nm, pos, kw = call_parts(t)
+        if nm == 'numpy.arange' and not (set(kw) - {'dtype'}) and 1 <= len(pos) <= 3:
+            # block edges: np.arange(0, n + 1, b) enumerates like range
+            a = [int_eval(x, env, depth + 1) for x in pos]
+            if any(v is UNKNOWN or not isinstance(v, int) or isinstance(v, bool) for v in a) or (len(a) == 3 and a[2] == 0):
+                return UNKNOWN
+            r = range(*a)
+            return tuple(r) if len(r) <= 64 else UNKNOWN
+        if nm == 'builtin.zip' and not kw and pos:
+            seqs = [int_eval(x, env, depth + 1) for x in pos]
+            if any(not isinstance(v, tuple) for v in seqs):
+                return UNKNOWN
+            return tuple(zip(*seqs))
+        if nm == 'builtin.enumerate' and len(pos) == 1 and not kw:
+            v = int_eval(pos[0], env, depth + 1)
+            return tuple(enumerate(v)) if isinstance(v, tuple) else UNKNOWN
         if nm == 'builtin.sorted' and len(pos) == 1 and set(kw) <= {'reverse'}:
             v = int_eval(pos[0], env, depth + 1)
             rv = int_eval(kw['reverse'], env, depth + 1) if 'reverse' in kw else False
